@@ -1451,3 +1451,64 @@ Section IncludeStringP.
   Lemma split_includes_empty : split_includes "" = [].
   Proof. reflexivity. Qed.
 End IncludeStringP.
+
+(* ================================================================== histories of runs *)
+Section ChainP.
+  Variable V : Type.
+  Notation link := (link V).
+
+  Lemma run_link_options prev (l : link) :
+    (do '(o, _) <- run_link prev l; Ok o) = own_options l.
+  Proof.
+    unfold run_link, own_options.
+    destruct (merge_options (l_decls l) (l_user l) []) as [[o x]|e]; reflexivity.
+  Qed.
+
+  (* the options of every run of a chain are those of the run's own recipe and own user_options:
+     whatever the chain did before, continued or not *)
+  Theorem chain_options_own (ls : list link) : forall prev,
+    chain_options prev ls = map (@own_options V) ls.
+  Proof.
+    unfold chain_options.
+    induction ls as [|l r IH]; intros prev; cbn [run_chain map]; [reflexivity|].
+    pose proof (run_link_options prev l) as H.
+    destruct (run_link prev l) as [[o c]|e] eqn:E; cbn [map]; rewrite IH; f_equal; exact H.
+  Qed.
+
+  Theorem chain_options_history_free (before before' ls : list link) prev prev' :
+    skipn (List.length before) (chain_options prev (before ++ ls)) =
+    skipn (List.length before') (chain_options prev' (before' ++ ls)).
+  Proof.
+    rewrite !chain_options_own, !map_app.
+    rewrite <- (map_length (@own_options V) before), <- (map_length (@own_options V) before').
+    rewrite !skipn_app, !skipn_all, !Nat.sub_diag. reflexivity.
+  Qed.
+
+  (* the property's option rule at every link of every chain *)
+  Theorem chain_option_rule (ls : list link) prev k (l : link) :
+    nth_error ls k = Some l ->
+    (forall o n d, nth_error (chain_options prev ls) k = Some (Ok o) ->
+                   last_decl n (l_decls l) = Some d ->
+                   lookup n o = match lookup n (l_user l) with Some v => Some v | None => o_default d end) /\
+    ((exists e, nth_error (chain_options prev ls) k = Some (Err e)) <->
+     (exists d, In d (l_decls l) /\ lookup (o_name d) (l_user l) = None /\ o_default d = None)) /\
+    (forall e, nth_error (chain_options prev ls) k = Some (Err e) -> exists m, e = DGE m).
+  Proof.
+    intros Hk. rewrite chain_options_own, (map_nth_error (@own_options V) k ls Hk). unfold own_options.
+    splits.
+    - intros o n d H Hd.
+      destruct (merge_options (l_decls l) (l_user l) []) as [[o' x]|e] eqn:E; cbn [bind] in H;
+        [|discriminate].
+      injection H as <-. exact (option_value _ _ _ n E Hd).
+    - rewrite <- (option_error_iff (l_decls l) (l_user l) []).
+      destruct (merge_options (l_decls l) (l_user l) []) as [[o' x]|e] eqn:E; cbn [bind]; split.
+      + intros [e H]. discriminate.
+      + intros [e H]. discriminate.
+      + intros _. eauto.
+      + intros _. eauto.
+    - intros e H.
+      destruct (merge_options (l_decls l) (l_user l) []) as [[o' x]|e'] eqn:E; cbn [bind] in H;
+        [discriminate|].
+      injection H as <-. exact (option_error_kind _ _ _ E).
+  Qed.
+End ChainP.
